@@ -250,8 +250,8 @@ def flip_ctrlpts2d_file(file_in='', file_out='ctrlpts_flip.txt'):
     # Flip control points array
     new_ctrlpts2d = flip_ctrlpts2d(ctrlpts2d, size_u, size_v)
 
-    # Save new control points
-    _save_ctrlpts2d_file(new_ctrlpts2d, size_u, size_v, file_out)
+    # Save new control points (the flipped grid has size_v rows of size_u points)
+    _save_ctrlpts2d_file(new_ctrlpts2d, size_v, size_u, file_out)
 
 
 def generate_ctrlptsw2d_file(file_in='', file_out='ctrlptsw.txt'):
